@@ -45,7 +45,10 @@ RULE = (
     "with parameters incl. REF and arrays, qualifier values on class/"
     "property/method/parameter with the flavors of their declaration) and "
     "instances of generated classes (all property types, NULLs, arrays, "
-    "references, embedded instances nested up to depth 2) are turned into "
+    "references, embedded instances nested up to depth 2; half of the plain "
+    "class properties declare a non-NULL default value that is independent "
+    "of the instance, which then has NULL / another value / the same value "
+    "/ omits the property) are turned into "
     "objects, printed with tomof(maxline in 40..200), compiled with a "
     "MOFCompiler on MOFWBEMConnection(conn=None) together with the needed "
     "(hand-written) qualifier declarations and classes, and compared with "
@@ -77,6 +80,8 @@ ASSUMPTIONS = [
     "embedded_object of class elements, instance paths and qualifiers on "
     "instances are not compared (not in the statement / documented as not "
     "written)",
+    "nothing is asserted about properties the instance does not specify "
+    "(the statement speaks of the original's property values only)",
     "instances conform to their class (declared properties, same type and "
     "array-ness); embedded objects are instances (the compiler documents "
     "that embedded classes are not supported); class-level default values "
@@ -135,6 +140,9 @@ SENSITIVITY = [
     "mofstr|qualdecl|cls|inst/value:string:changed, */value:char16:changed",
     "compiler t_decimalValue: sign dropped -> */value:integer:changed, "
     "*/compile-raises:ValueError@_cim_types:__new__",
+    "compiler p_instanceDeclaration(): value only assigned when the "
+    "initializer is not NULL (seeded change2) -> inst/instance:NULL-value-"
+    "replaced-by-class-default",
     "not caught because equivalent for this property: mofstr() split "
     "position avl_len instead of avl_len-1 (only the line length changes), "
     "embedded value objs[-1] instead of objs[0] (one object), newlines of "
@@ -515,6 +523,25 @@ MAXLINE = st.one_of(st.sampled_from([40, 41, 60, 80, 80, 100, 200]),
 
 # ---- instances
 
+HAS_DEFAULT = st.sampled_from([True, False])
+DEFAULT_STRINGS = st.one_of(
+    st.sampled_from(['dflt', '', 'a b', 'say "hi"', 'a\\b', 'x\ny', '\x01',
+                     '\xe4\u20ac', 'D' * 70]),
+    st.text(alphabet=_string.ascii_letters + ' "\\\n\xe4', max_size=10))
+
+
+@functools.lru_cache(maxsize=None)
+def default_for(t, is_array, size):
+    "non-NULL default value of a class property (arrays may hold NULLs)"
+    sc = DEFAULT_STRINGS if t == 'string' else scalar(t)
+    if not is_array:
+        return sc
+    elem = st.one_of(sc, sc, sc, st.none())
+    if size is not None:
+        return st.lists(elem, min_size=size, max_size=size)
+    return st.lists(elem, max_size=3)
+
+
 INST_PLAIN_TYPE = st.sampled_from(['string', 'string', 'char16', 'real32',
                                    'datetime'] + S.SIMPLE_TYPES)
 INST_KIND0 = st.sampled_from(['plain'] * 7 + ['ref'])
@@ -526,7 +553,8 @@ EMB_KIND = st.sampled_from(['instance', 'object'])
 def inst_recipe(draw, depth, cname):
     """
     {'k': 'c08inst', 'classname', 'props': [{'name','type','is_array',
-      'array_size','emb','refcls','value','in_inst','spell'}]}
+      'array_size','emb','refcls','value','in_inst','spell','default'}]}
+    default: non-NULL default value in the class declaration, or None
     value: plain value | nested c08inst recipe(s) for embedded properties
     """
     props = []
@@ -541,6 +569,7 @@ def inst_recipe(draw, depth, cname):
         refcls = None
         emb = None
         asz = None
+        default = None
         if kind == 'ref':
             t, is_array = 'reference', False
             value = draw(INST_REF)
@@ -565,12 +594,18 @@ def inst_recipe(draw, depth, cname):
             is_array = draw(st.booleans())
             asz = draw(ARRAY_SIZE) if is_array else None
             value = draw(value_for(t, is_array, 2, asz))
+            # default value in the class declaration, independent of the
+            # instance value; then the instance has NULL there more often
+            if draw(HAS_DEFAULT):
+                default = draw(default_for(t, is_array, asz))
+                if draw(SMALL) in (1, 4, 7):
+                    value = None
         spell = name
         if draw(SMALL) == 7:
             spell = _swap(name, draw(MASK))
         props.append({'name': name, 'type': t, 'is_array': is_array,
                       'array_size': asz, 'emb': emb, 'refcls': refcls,
-                      'value': value, 'spell': spell,
+                      'value': value, 'spell': spell, 'default': default,
                       'in_inst': draw(SMALL) != 7})
     if not any(p['in_inst'] for p in props):
         props[0]['in_inst'] = True
@@ -660,6 +695,43 @@ def _inst_value(p):
     return S.build_value(p['type'], v)
 
 
+def _mof_quoted(text, quote):
+    "hand-written DSP0004 literal (independent of tomof()): no folding"
+    out = []
+    for c in text:
+        if c == '\\' or c == quote:
+            out.append('\\' + c)
+        elif ord(c) < 32:
+            out.append('\\x%04X' % ord(c))
+        else:
+            out.append(c)
+    return quote + ''.join(out) + quote
+
+
+def mof_literal(t, v):
+    "hand-written MOF initializer for a plain (recipe) value of CIM type t"
+    if isinstance(v, list):
+        return '{ ' + ', '.join(mof_literal(t, x) for x in v) + ' }' \
+            if v else '{ }'
+    if v is None:
+        return 'NULL'
+    if t == 'boolean':
+        return 'true' if v else 'false'
+    if t == 'string':
+        return _mof_quoted(v, '"')
+    if t == 'char16':
+        return _mof_quoted(v, "'")
+    if t == 'datetime':
+        return '"%s"' % S.build_datetime(v)
+    if t in S.INT_TYPES:
+        return '%d' % v
+    if t in S.REAL_TYPES:
+        txt = repr(float(v))
+        mant, e, exp = txt.partition('e')
+        return mant + '.0e' + exp if e and '.' not in mant else txt
+    raise ValueError(t)
+
+
 def inst_dep_mof(r, done=None):
     "hand-written MOF of the classes an instance recipe needs (post-order)"
     if done is None:
@@ -691,6 +763,10 @@ def inst_dep_mof(r, done=None):
         elif p['emb'] == 'object':
             body.append('  [EmbeddedObject] string %s%s;\n' % (p['name'],
                                                                arr))
+        elif p.get('default') is not None:
+            body.append('  %s %s%s = %s;\n' % (
+                p['type'], p['name'], arr,
+                mof_literal(p['type'], p['default'])))
         else:
             body.append('  %s %s%s;\n' % (p['type'], p['name'], arr))
     if r['classname'].lower() not in done:
@@ -964,6 +1040,7 @@ class Diff:
         self.text = text
         self.items = []
         self.override = None    # signature for everything found meanwhile
+        self.defaults = {}      # see class_defaults()
 
     def add(self, sig, path, a, b):
         self.items.append((self.override or sig,
@@ -1158,9 +1235,26 @@ def diff_class(d, a, b):
                             xb.qualifiers)
 
 
+def class_defaults(r, out=None):
+    "{classname.lower(): {propname.lower(): built default}} of a recipe"
+    if out is None:
+        out = {}
+    dd = out.setdefault(r['classname'].lower(), {})
+    for p in r['props']:
+        if p.get('default') is not None:
+            dd[p['name'].lower()] = S.build_value(p['type'], p['default'])
+        if p['emb']:
+            for sub in (p['value'] if isinstance(p['value'], list)
+                        else [p['value']]):
+                if sub is not None:
+                    class_defaults(sub, out)
+    return out
+
+
 def diff_instance(d, path, a, b):
     if a.classname.lower() != b.classname.lower():
         d.add('names:instance-classname', path, a.classname, b.classname)
+    dflt = getattr(d, 'defaults', {}).get(a.classname.lower(), {})
     for ka, kb in _names(d, path + '.properties', 'instance-property',
                          a.properties, b.properties):
         pa, pb = a.properties[ka], b.properties[kb]
@@ -1170,6 +1264,11 @@ def diff_instance(d, path, a, b):
             continue
         if bool(pa.is_array) != bool(pb.is_array):
             d.add('instance-property:is_array', p, pa.is_array, pb.is_array)
+            continue
+        if pa.value is None and pb.value is not None and \
+                ka.lower() in dflt and pb.value == dflt[ka.lower()]:
+            d.add('instance:NULL-value-replaced-by-class-default', p,
+                  pa.value, pb.value)
             continue
         diff_value(d, p, pa.type, pa.value, pb.value)
 
@@ -1404,8 +1503,18 @@ def inst_oracle(ctx, ex):
         ctx.case(nontrivial=True, classes=cl)
         return
 
+    defaults = class_defaults(r)
+    for x in S.walk(r):
+        if isinstance(x, dict) and x.get('default') is not None:
+            cl.add('class-default:' + (
+                'instance-omits' if not x['in_inst'] else
+                'instance-NULL' if x['value'] is None else
+                'instance-same' if x['value'] == x['default'] else
+                'instance-other'))
+
     def evaluate(conn):
         d = Diff(body)
+        d.defaults = defaults
         insts = conn.instances.get(NS, [])
         if len(insts) != 1:
             d.add('compiled-object-missing', 'instances', 1, len(insts))
